@@ -54,6 +54,8 @@ Inductive case :=
 | ZatMulU64 (a n : Z) (o : outcome (option Z) unit)
 | ZatMulUsize (a n : Z) (o : outcome (option Z) unit)
 | ZatSum (l : list Z) (o : outcome (option Z) unit)
+| ZatSumRep (v : Z) (n : N) (o : outcome (option Z) unit)   (* sum of n copies of v *)
+| ZbSumRep (v : Z) (n : N) (o : ores)
 | ZatDiv (a d : Z) (o : outcome Z unit)
 | ZatDivRem (a d : Z) (o : outcome (Z * Z) unit)
 | ZatNeg (z : Z) (o : outcome Z unit)
@@ -99,6 +101,8 @@ Definition run_case (c : case) : bool :=
   | ZatMulU64 a n o => ores_eqb (okz (zat_mul_u64 a n)) o
   | ZatMulUsize a n o => ores_eqb (okz (zat_mul_usize a n)) o
   | ZatSum l o => ores_eqb (okz (zat_sum l)) o
+  | ZatSumRep v n o => ores_eqb (okz (zat_sum (repeat v (N.to_nat n)))) o
+  | ZbSumRep v n o => ores_eqb (zb_sum (repeat v (N.to_nat n))) o
   | ZatDiv a d o => nres_eqb (Ok (zat_div a d)) o
   | ZatDivRem a d o => outcome_eqb (pair_eqb Z.eqb Z.eqb) unit_eqb (Ok (zat_div_with_remainder a d)) o
   | ZatNeg z o => nres_eqb (zat_neg z) o
@@ -153,6 +157,8 @@ Definition prop_case (c : case) : bool :=
   | ZatMulU64 a n o => ores_eqb (Ok (exact_zat (a * n))) o
   | ZatMulUsize a n o => ores_eqb (Ok (exact_zat (a * n))) o
   | ZatSum l o => ores_eqb (Ok (prefix_sum_spec 0 M 0 l)) o
+  | ZatSumRep v n o => ores_eqb (Ok (prefix_sum_spec 0 M 0 (repeat v (N.to_nat n)))) o
+  | ZbSumRep v n o => ores_eqb (Ok (prefix_sum_spec (- M) M 0 (repeat v (N.to_nat n)))) o
   | ZatDiv a d o => nres_eqb (Ok (a / d)) o && valid_zatb (a / d)
   | ZatDivRem a d o =>
       match o with
@@ -189,7 +195,7 @@ Definition tag_case (c : case) : N :=
   | ZatWrite _ _ => 280 | ZatAdd _ _ o => 290 + ofailed o | ZatSub _ _ o => 300 + ofailed o
   | ZatOptAdd _ _ o => 310 + ofailed o | ZatOptSub _ _ o => 320 + ofailed o
   | ZatMulU64 _ _ o => 330 + ofailed o | ZatMulUsize _ _ o => 340 + ofailed o
-  | ZatSum _ o => 350 + ofailed o | ZatDiv _ _ o => 360 + failed o
+  | ZatSum _ o => 350 + ofailed o | ZatSumRep _ _ o => 400 + ofailed o | ZbSumRep _ _ o => 410 + ofailed o | ZatDiv _ _ o => 360 + failed o
   | ZatDivRem _ _ o => 370 + failed o | ZatNeg _ o => 380 + failed o
   | ZatTryFromZb _ o => 390 + failed o
   end)%N.
